@@ -1092,8 +1092,8 @@ def _parse_length_prefixed(interp, args, kwargs):
     if isinstance(inp, ExtObj) and inp.kind in ("io.stream", "io.BufferedReader"):
         src = stream_root(inp)
         offset = src.attrs.get("pos", 0)
-        if offset != 0:
-            interp.emit("misaligned", offset=offset)
+        if offset != src.attrs.get("start", 0):
+            interp.emit("misaligned", offset=offset if not isinstance(offset, int) else offset - src.attrs.get("start", 0))
         ok, fr = _next_frame(interp, src)
         interp.emit("frame_pull", got=ok, frame=fr)
         if not ok:
@@ -1126,8 +1126,8 @@ def _parse(interp, args, kwargs):
     interp.emit("io", method="parse", recv=data)
     if isinstance(data, ExtObj) and data.kind == "bytes:all":
         src = data.attrs["stream"]
-        if src.attrs.get("pos", 0) != 0 and not data.attrs.get("from_start", True):
-            interp.emit("misaligned", offset=src.attrs.get("pos", 0))
+        if not data.attrs.get("from_start", True):
+            interp.emit("misaligned", offset=data.attrs.get("read_at"))
         frames = src.attrs["frames"]
         ok, fr = interp.next_value(frames)
         interp.emit("frame_pull", got=ok, frame=fr, whole=True)
@@ -1510,17 +1510,31 @@ def getattr_ext(interp, obj: Any, name: str) -> Any:
         if name in ("Name", "Value", "keys", "values", "items"):
             return ExtMethod(obj, "enumtype", name)
         raise interp.exc("AttributeError", f"enum {obj.name} has no member {name}")
+    def _known(host_type: type) -> None:
+        if not hasattr(host_type, name):
+            raise interp.exc("AttributeError", f"'{host_type.__name__}' object has no attribute '{name}'")
+
     if isinstance(obj, AList):
+        import collections
+
+        _known({"list": list, "deque": collections.deque, "bytearray": bytearray}.get(obj.kind, list))
         return ExtMethod(obj, "list", name)
     if isinstance(obj, ADict):
+        import collections
+
+        _known({"dict": dict, "OrderedDict": collections.OrderedDict, "defaultdict": collections.defaultdict, "Counter": collections.Counter}.get(obj.kind, dict))
         return ExtMethod(obj, "dict", name)
     if isinstance(obj, ASet):
+        _known(frozenset if obj.frozen else set)
         return ExtMethod(obj, "set", name)
     if isinstance(obj, (str, SStr)):
+        _known(str)
         return ExtMethod(obj, "str", name)
     if isinstance(obj, bytes):
+        _known(bytes)
         return ExtMethod(obj, "bytes", name)
     if isinstance(obj, tuple):
+        _known(tuple)
         return ExtMethod(obj, "tuple", name)
     if isinstance(obj, (int, float)) and not isinstance(obj, EnumInt):
         if name in ("real", "imag", "numerator", "denominator"):
@@ -2344,7 +2358,7 @@ def _str_method(interp, s: Any, name: str, args: list, kwargs: dict) -> Any:
     if name in ("lower", "upper", "strip", "lstrip", "rstrip", "title", "casefold", "replace"):
         interp.emit("str_transform", op=name, value=s)
         return sstr(Atom(f"{name}({s!r})", nonempty=None))
-    if name in ("isdigit", "isalpha", "isalnum", "isspace"):
+    if name in ("isdigit", "isalpha", "isalnum", "isspace", "isascii", "isnumeric", "isdecimal", "isupper", "islower", "isidentifier", "isprintable", "istitle"):
         return Unknown((name, s), f"{s!r}.{name}()")
     if name == "split" or name == "rsplit":
         interp.emit("str_transform", op=name, value=s)
@@ -2377,13 +2391,13 @@ def _enumtype_method(interp, et: EnumTypeRef, name: str, args: list, kwargs: dic
 # -- io objects
 
 
-def make_input(frames: Any, header: bytes | None, *, seekable: bool = True, buffered: bool = True, label: str = "inp", user_buffered_reader: bool = False) -> ExtObj:
+def make_input(frames: Any, header: bytes | None, *, seekable: bool = True, buffered: bool = True, label: str = "inp", user_buffered_reader: bool = False, short_first_read: int | None = None, start: int = 0) -> ExtObj:
     """Abstract byte source holding a sequence of frames (iterator of Msg) and a concrete header.
 
     buffered=True: a BytesIO-like / already buffered object whose read(n) is exact-or-EOF (it has no peek()).
     user_buffered_reader=True: the caller hands over an io.BufferedReader around an unbuffered raw source
     (its read(n) is exact, its peek(n) returns whatever is left in its buffer: possibly fewer bytes)."""
-    root = ExtObj("io.stream", {"frames": frames, "header": header, "seekable": seekable, "buffered": buffered and not user_buffered_reader, "pos": 0, "label": label, "reads": []})
+    root = ExtObj("io.stream", {"frames": frames, "header": header, "seekable": seekable, "buffered": buffered and not user_buffered_reader, "pos": start, "start": start, "label": label, "reads": [], "short_first_read": short_first_read})
     if user_buffered_reader:
         return ExtObj("io.BufferedReader", {"raw": root, "user": True})
     return root
@@ -2463,7 +2477,7 @@ def _io_method(interp, o: ExtObj, name: str, args: list, kwargs: dict) -> Any:
             if n is None or (isinstance(n, int) and n < 0):
                 if name != "read":
                     raise interp.unsupported(f"{name}() without size")
-                return ExtObj("bytes:all", {"stream": root, "from_start": root.attrs["pos"] == 0})
+                return ExtObj("bytes:all", {"stream": root, "from_start": root.attrs["pos"] == root.attrs.get("start", 0), "read_at": root.attrs["pos"]})
             hdr = root.attrs["header"]
             if hdr is None:
                 return fresh_unknown("header bytes")
@@ -2492,6 +2506,12 @@ def _io_method(interp, o: ExtObj, name: str, args: list, kwargs: dict) -> Any:
                 data = hdr[root.attrs["pos"] :] + b"\x12\x34\x0a\x0a\x56"
             else:
                 data = hdr[root.attrs["pos"] : root.attrs["pos"] + n] if isinstance(n, int) else hdr
+            short = root.attrs.get("short_first_read")
+            if short and not exact:
+                # the environment delivers only `short` bytes to the first read that is allowed to be short
+                root.attrs["short_first_read"] = None
+                data = data[:short]
+                interp.emit("short_read", method=name, n=n, got=len(data))
             if name != "peek":
                 root.attrs["pos"] += len(data)
                 if isinstance(n, int) and n != 3 and n > len(data):
